@@ -12,6 +12,11 @@ mod value_store;
 use self::index::IndexHeader;
 use crate::bases::*;
 use crate::common::{CheckInfo, DirectoryPackHeader, Pack, PackHeader, PackKind};
+#[cfg(jubako_verif_loom)]
+use crate::bases::verif_sync::RwLock;
+#[cfg(jubako_verif_loom)]
+use std::sync::Arc;
+#[cfg(not(jubako_verif_loom))]
 use std::sync::{Arc, RwLock};
 use uuid::Uuid;
 
